@@ -56,6 +56,10 @@ func (c *EventCache) Add(event *Event) (added bool) {
 		return false
 	}
 
+	if event.EventType() == EventTypeEphemeral {
+		return true
+	}
+
 	if added = c.add(eventKey, event); !added {
 		return
 	}
@@ -202,7 +206,7 @@ func (c *EventCache) findNeedLock(
 
 func (c *EventCache) getEventKey(event *Event) string {
 	switch event.EventType() {
-	case EventTypeRegular:
+	case EventTypeRegular, EventTypeEphemeral:
 		return event.ID
 
 	case EventTypeReplaceable:
